@@ -525,6 +525,77 @@ func ruleN1(p *Prog, r *Report) {
 			}
 			rec(del.Block())
 			r.Decide(okGuard, R, cons, p.InstrPos(del), "index entry deleted, guarded only by tests on the detached id / the new value's id", "deletion of the index entry is "+why)
+			// the guard is exact: with "the new value is a container" (the comma-ok assertion) and "its id differs from
+			// the detached id" as atoms, the entry is deleted whenever the new value is no container, and whenever
+			// the ids differ; it may only survive when the new value is the very same container
+			{
+				isOK := func(v ssa.Value) bool {
+					ex, ok := canon(v).(*ssa.Extract)
+					if !ok || ex.Index != 1 {
+						return false
+					}
+					ta, ok := ex.Tuple.(*ssa.TypeAssert)
+					return ok && ta.CommaOk
+				}
+				isIDCmp := func(v ssa.Value) (bool, bool) { // (is comparison, is NEQ)
+					bo, ok := canon(v).(*ssa.BinOp)
+					if !ok || (bo.Op != token.NEQ && bo.Op != token.EQL) {
+						return false, false
+					}
+					if typeName(bo.X.Type()) != "ValueID" || isEmptyValueID(bo.X) || isEmptyValueID(bo.Y) {
+						return false, false
+					}
+					return true, bo.Op == token.NEQ
+				}
+				badCase := ""
+				for _, asg := range [][2]bool{{false, false}, {false, true}, {true, true}} {
+					reached := false
+					seenB := map[*ssa.BasicBlock]bool{}
+					var walk func(b *ssa.BasicBlock)
+					walk = func(b *ssa.BasicBlock) {
+						if seenB[b] || reached {
+							return
+						}
+						seenB[b] = true
+						if b == del.Block() {
+							reached = true
+							return
+						}
+						if ifi, ok := b.Instrs[len(b.Instrs)-1].(*ssa.If); ok {
+							c := ifi.Cond
+							neg := false
+							if u, ok := c.(*ssa.UnOp); ok && u.Op == token.NOT {
+								c, neg = u.X, true
+							}
+							val, known := false, false
+							if isOK(c) {
+								val, known = asg[0], true
+							} else if is, neq := isIDCmp(c); is {
+								val, known = asg[1] == neq, true
+							}
+							if known {
+								if neg {
+									val = !val
+								}
+								if val {
+									walk(b.Succs[0])
+								} else {
+									walk(b.Succs[1])
+								}
+								return
+							}
+						}
+						for _, sc := range b.Succs {
+							walk(sc)
+						}
+					}
+					walk(in.Block())
+					if !reached {
+						badCase = fmt.Sprintf("new value is a container: %v, its id differs from the detached one: %v", asg[0], asg[1])
+					}
+				}
+				r.Decide(badCase == "", R, "index-delete-exact:"+p.Name(f), p.InstrPos(del), "the entry is deleted whenever the new value is no container or another container", "the registry entry of the overwritten / removed child survives in a case where the child is detached ("+badCase+"): its stale callback still passes the 'is an element' test and reads the former parent's slabs on every mutation")
+			}
 			// overwrite with a caller-supplied value: the entry must survive when the new value is the same container
 			// only where the storable comes out of an operation that stored the caller's value (Set), not of a removal
 			hasValueParam := false
@@ -1613,4 +1684,14 @@ func isIdentityHelper(g *ssa.Function, depth int) bool {
 		}
 	}
 	return sawEq
+}
+
+// isEmptyValueID: v is (a load of) the package's empty value id.
+func isEmptyValueID(v ssa.Value) bool {
+	u, ok := canon(v).(*ssa.UnOp)
+	if !ok || u.Op != token.MUL {
+		return false
+	}
+	g, ok := u.X.(*ssa.Global)
+	return ok && g.Name() == "emptyValueID"
 }
